@@ -105,6 +105,97 @@ theorem subtype_symm (a b : Ty) (ha : WF a) (hb : WF b) : subtype table a b = su
   · obtain ⟨v, hw, h, h'⟩ := h1.1 hab
     exact absurd (h2.2 ⟨v, hw, h', h⟩) (by simp [hba])
 
+/-! ## The call boundary, every argument-passing form -/
+
+/-- every bound value is compatible with the declared type of its input -/
+def compatAll : List Ty → List Ty → Bool
+  | v :: vs, d :: ds => compat v d && compatAll vs ds
+  | _, _ => true
+
+theorem judgeAll_exact : (vs ds : List Ty) → (∀ v ∈ vs, WF v) → (∀ d ∈ ds, d.allElems okElem = true) →
+    judgeAll table vs ds = compatAll vs ds
+  | [], _, _, _ => by simp [judgeAll, compatAll]
+  | _ :: _, [], _, _ => by simp [judgeAll, compatAll]
+  | v :: vs, d :: ds, hv, hd => by
+    simp only [judgeAll, compatAll]
+    rw [subtype_exact v d (hv v (by simp)) (hd d (by simp)),
+        judgeAll_exact vs ds (fun x hx => hv x (by simp [hx])) (fun x hx => hd x (by simp [hx]))]
+
+/-- **The compatibility judgement is applied exactly at the call boundary, whatever the argument-passing form**:
+    `inline(model)(*pos, **kw)` is accepted iff the arguments bind (Python's rules) and EVERY bound value -
+    positional, keyword or default - is compatible with the declared type of its input. -/
+theorem call_boundary_exact (decl dflt : List (String × Ty)) (pos : List Ty) (kw : List (String × Ty))
+    (hpos : ∀ v ∈ pos, WF v) (hkw : ∀ p ∈ kw, WF p.2) (hdf : ∀ p ∈ dflt, WF p.2)
+    (hdecl : ∀ p ∈ decl, p.2.allElems okElem = true) :
+    callAccepted table decl dflt pos kw = true ↔
+      ∃ vs, bindCall (decl.map (·.1)) dflt pos kw = some vs ∧ compatAll vs (decl.map (·.2)) = true := by
+  have hlk : ∀ (l : List (String × Ty)) (n : String) (v : Ty), (∀ p ∈ l, WF p.2) → lookupKw l n = some v → WF v := by
+    intro l n v hl h
+    simp only [lookupKw, Option.map_eq_some_iff] at h
+    obtain ⟨p, hp, rfl⟩ := h
+    exact hl p (List.mem_of_find?_eq_some hp)
+  have hone : ∀ n i v, bindOne dflt pos kw n i = some v → WF v := by
+    intro n i v h
+    simp only [bindOne] at h
+    cases hp : pos[i]? with
+    | some x =>
+      simp only [hp, Option.some.injEq] at h; subst h
+      exact hpos x (List.mem_of_getElem? hp)
+    | none =>
+      simp only [hp] at h
+      cases hk : lookupKw kw n with
+      | some x => simp only [hk, Option.some.injEq] at h; subst h; exact hlk kw n x hkw hk
+      | none => simp only [hk] at h; exact hlk dflt n v hdf h
+  have hfrom : ∀ (ns : List String) (i : Nat) (vs : List Ty), bindFrom dflt pos kw ns i = some vs → ∀ v ∈ vs, WF v := by
+    intro ns
+    induction ns with
+    | nil => intro i vs h; simp [bindFrom] at h; subst h; simp
+    | cons n ns ih =>
+      intro i vs h
+      simp only [bindFrom] at h
+      cases h1 : bindOne dflt pos kw n i with
+      | none => simp [h1] at h
+      | some v =>
+        cases h2 : bindFrom dflt pos kw ns (i + 1) with
+        | none => simp [h1, h2] at h
+        | some rest =>
+          simp only [h1, h2, Option.some.injEq] at h; subst h
+          intro x hx
+          rcases List.mem_cons.1 hx with rfl | hx
+          · exact hone n i _ h1
+          · exact ih (i + 1) rest h2 x hx
+  have hd : ∀ d ∈ decl.map (·.2), d.allElems okElem = true := by
+    intro d hd
+    obtain ⟨p, hp, rfl⟩ := List.mem_map.1 hd
+    exact hdecl p hp
+  simp only [callAccepted]
+  cases hb : bindCall (decl.map (·.1)) dflt pos kw with
+  | none => simp
+  | some vs =>
+    have hwf : ∀ v ∈ vs, WF v := by
+      simp only [bindCall] at hb
+      split at hb
+      · simp at hb
+      · split at hb
+        · simp at hb
+        · split at hb
+          · simp at hb
+          · exact hfrom _ 0 vs hb
+    simp [judgeAll_exact vs _ hwf hd]
+
+-- one model input `x : e3[2]` between two e11 scalars `p`, `q`: the incompatible `e11[2]` is refused in
+-- every argument-passing form, the compatible `e3['N']` accepted in every form (3 and 11 are two distinct element classes of the generated table)
+example : let f32 : Ty := .tensor 11 (some []); let decl := [("p", f32), ("x", Ty.tensor 3 (some [.const 2])), ("q", f32)]
+    let bad : Ty := .tensor 11 (some [.const 2]); let ok : Ty := .tensor 3 (some [.unk "N"])
+    callAccepted table decl [] [f32, bad, f32] [] = false ∧ callAccepted table decl [] [] [("q", f32), ("x", bad), ("p", f32)] = false ∧
+    callAccepted table decl [] [f32] [("x", bad), ("q", f32)] = false ∧
+    callAccepted table decl [] [f32, ok, f32] [] = true ∧ callAccepted table decl [] [] [("q", f32), ("x", ok), ("p", f32)] = true ∧
+    callAccepted table decl [] [f32] [("x", ok), ("q", f32)] = true ∧
+    -- binding errors: a name given twice, an unknown keyword, a missing argument
+    callAccepted table decl [] [f32, ok] [("x", ok), ("q", f32)] = false ∧ callAccepted table decl [] [f32, ok, f32] [("z", f32)] = false ∧
+    callAccepted table decl [] [f32, ok] [] = false ∧ callAccepted table decl [("q", f32)] [f32, ok] [] = true := by decide +kernel
+
+
 /-! ## Broadcasting -/
 
 /-- **On known dimensions static broadcasting is numpy's rule.** -/
